@@ -11,7 +11,7 @@ func init() {
 		ID: "C06",
 		Explanation: "Structural necessary conditions of 'no dynamic secret or token without a durable lease', on every CFG path: " +
 			"(1) ExpirationManager.Register arms its rollback (deferred closure) before the first durable write; under a non-nil named error the closure routes a RevokeRequest for the fresh secret to the backend, deletes the lease entry and removes the token index, unconditionally (not depending on the entry having been written); success crosses persistEntry and createIndexByToken and tracks the lease; " +
-			"(2) in Core.handleRequest / handleLoginRequest the failure edge of Register returns a nil response, the lease ID is attached only on the success edge, inline-auth leases are revoked and refused, a login never returns a secret; " +
+			"(2) in Core.handleRequest / handleLoginRequest the failure edge of Register returns a nil response, the lease ID is attached only on the success edge, once the registerLease flag is true a non-nil response leaves only across the success edge of Register (the flag is cleared only on the KV-mount arms), inline-auth leases are revoked and refused, a login never returns a secret; " +
 			"(3) at every RegisterAuth call site (token creation in handleRequest, login in Core.RegisterAuth, wrapping token in wrapInCubbyhole) the failure edge revokes the fresh token before returning and returns no response; every failing exit of wrapInCubbyhole after the wrapping token exists revokes it; " +
 			"(4) RegisterAuth refuses non-root zero-TTL, batch, empty-token and '..' paths before persisting; " +
 			"(5) only the token store may return an auth block on an authenticated path; (6) errors of the lease persistence helpers are never dropped.",
@@ -118,6 +118,47 @@ func runC06(c *eng.Ctx, thorough bool) {
 		c.Clause("R5", "C06.2")
 		for _, st := range lease {
 			c.Prov(f, "lease ID attached to the response", st, st.(*ssa.Store).Val, `^call:vault\.\(\*ExpirationManager\)\.Register#0$`)
+		}
+		// a response that carries a secret leaves handleRequest only across the
+		// success edge of Register, unless the registerLease flag was cleared on a
+		// tabled (KV mount) arm. The flag is a phi: start on the edges that feed it
+		// `true`; on those the false edge of the test of the flag itself is
+		// infeasible, every other way around Register is a hole.
+		c.Clause("R2", "C06.2")
+		isConst := func(want string) func(ssa.Value) bool {
+			return func(v ssa.Value) bool { _, ok := v.(*ssa.Const); return ok && eng.Expr(v) == want }
+		}
+		mustReg := eng.PhiEdges(f, "registerLease", isConst("true"))
+		noReg := eng.PhiEdgeSinks(f, "registerLease", isConst("false"))
+		if c.Floor(f, "edges with registerLease = true", len(mustReg), 1) && c.Floor(f, "registerLease = false arms", len(noReg), 1) {
+			blocked := eng.GCallOK(f, `vault\.\(\*ExpirationManager\)\.Register$`).Edges
+			nTests := 0
+			testPos := f.Pos()
+			for _, b := range f.Blocks {
+				ifi := eng.IfOf(b)
+				if ifi == nil {
+					continue
+				}
+				if phi, ok := ifi.Cond.(*ssa.Phi); ok && phi.Comment == "registerLease" {
+					nTests++
+					testPos = ifi.Pos()
+					blocked = append(blocked, eng.Edge{From: b, Succ: 1})
+				}
+			}
+			site := "on{registerLease = true} response only across Register success"
+			if nTests == 0 {
+				c.Undecided(f, site, f.Pos(), "no branch tests the registerLease flag itself: the arm that skips registration cannot be told from a hole")
+			} else if h := eng.Reach(eng.Query{Fn: f, StartEdges: mustReg, Blocked: blocked, Target: eng.IsTarget(eng.NonNilResultReturns(f, 0))}); h != nil {
+				c.Violation(f, site, h.Instr.Pos(), "a response carrying a secret whose mount generates leases can be returned without a successful expiration.Register: the secret has no lease and is never revoked", h.Witness)
+			} else {
+				c.OK(f, site, testPos, "with registerLease true every return of a non-nil response crosses the success edge of expiration.Register")
+			}
+			// registration is waived only for KV mounts
+			mt := `^routing\.\(\*Router\)\.MatchingMountEntry\(\)\.`
+			c.Cut(f, "registerLease = false", noReg, eng.Or(
+				eng.G(f, mt+`Type == "kv"$`, true),
+				eng.G(f, mt+`Type == "generic"$`, true),
+				eng.G(f, mt+`Config\.PluginName == "kv"$`, true)), nil)
 		}
 		// inline auth: lease => revoke and refuse
 		c.Clause("R4", "C06.2")
